@@ -180,7 +180,7 @@ def long_hosts(n):
 def gen_line(r, names, big=True, sub=b"", absdir=None, fatal=False):
     k = r.weighted([("host", 8), ("range", 4), ("comment", 2), ("trail_comment", 2), ("blank", 2), ("include", 6), ("bad_include", 1),
                     ("long", 1 if big else 0), ("indented_include", 1), ("multi", 2), ("long_small", 1), ("noblank_include", 1),
-                    ("cr_include", 1), ("asis_include", 2), ("long_rel_include", 1 if fatal else 0), ("hash_include_comment", 1)])
+                    ("cr_include", 1), ("asis_include", 2), ("subdir_include", 2), ("long_rel_include", 1 if fatal else 0), ("hash_include_comment", 1)])
     if k == "host":
         return hlgen.gen_text(r, ("alpha", "alnum", "dash", "dot"))
     if k == "range":
@@ -201,6 +201,9 @@ def gen_line(r, names, big=True, sub=b"", absdir=None, fatal=False):
         return r.choice([b" ", b"\t"]) + b"#include " + r.choice(names)
     if k == "noblank_include":
         return b"#include" + r.choice(names)
+    if k == "subdir_include":
+        # a name with a directory part (no leading / ./ ../): still looked up below the directory of the top-level file
+        return b"#include inc/" + r.choice(names)
     if k == "cr_include":
         return b"#include " + r.choice(names) + b"\r"
     if k == "asis_include":
@@ -242,6 +245,11 @@ def gen_files(r, sub, names, big, absdir):
         if lines and not r.chance(1, 5):
             body += b"\n"
         fs[(sub + b"/" if sub else b"") + n] = body
+    for n in names:
+        if any((b"#include inc/" + n) in t for t in list(fs.values())):
+            fs[(sub + b"/" if sub else b"") + b"inc/" + n] = b"inc" + n.replace(b".", b"d") + b"1\n#include " + r.choice(names) + b"\n"
+            if sub and r.chance(2, 3):
+                fs[b"inc/" + n] = b"stale" + n.replace(b".", b"d") + b"\n"      # a decoy below the current directory
     return fs
 
 
